@@ -121,6 +121,24 @@ def judge_stream(data: bytes, cfg):
 
 
 def replay_case(case):
+    if case["kind"] == "socket":
+        acc = engine.Acc()
+        data = bytes.fromhex(case["data"])
+        try:
+            rd = UBXReader(streams.ChunkSocket(data, case["chunk"], case["end"]), bufsize=case["bufsize"], quitonerror=case["q"])
+            n = 0
+            for raw, parsed in rd:
+                n += 1
+                if n > len(data) + 8:
+                    raise streams.Horizon()
+            st = "end"
+        except streams.Horizon:
+            st = "no-termination"
+        except PROTO_ERRORS:
+            st = "proto-error" if case["q"] == 2 else "raised-under-ignore"
+        except Exception as e:  # noqa: BLE001
+            st = "foreign:" + type(e).__name__
+        return [] if st in ("end", "proto-error") else [(f"socket_stream_{st.replace(':', '|')}|end={case['end']}|q={case['q']}", "")]
     if case["kind"] == "parse" and "data_gen" in case:
         g = case["data_gen"]
         data = b"\xb5\x62" + bytes.fromhex(g["cid"]) + bytes.fromhex(g["len"]) + bytes(g["n"]) + bytes.fromhex(g["ck"])
@@ -229,6 +247,35 @@ def _eval_block(block, acc):
                 acc.outcomes[("stream", cfg.get("quitonerror", 0), type(r.raised).__name__ if r.raised else "end")] += 1
                 for key, detail in out:
                     acc.violation(key, {"kind": "stream", "data": data.hex(), "cfg": cfg}, detail)
+    elif kind == "K":  # socket streams cut at every byte (peer closes / times out mid-frame)
+        first = block[1]
+        for seq in [(first,)] + [(first, t) for t in ("Uack", "N1", "R1", "Ubad")]:
+            data = streams.seq_bytes(seq)
+            for k in range(len(data) + 1):
+                for chunk, bufsize in ((3, 4), (64, 4096), (1, 1)):
+                    for end in ("close", "timeout"):
+                        for q in (0, 2):
+                            tick()
+                            r = streams.Run()
+                            try:
+                                rd = UBXReader(streams.ChunkSocket(data[:k], chunk, end), bufsize=bufsize, quitonerror=q)
+                                n = 0
+                                for raw, parsed in rd:
+                                    n += 1
+                                    if n > len(data) + 4:
+                                        raise streams.Horizon()
+                                st = "end"
+                            except (streams.Horizon, Hang):
+                                st = "no-termination"
+                            except PROTO_ERRORS as e:
+                                st = "proto-error" if q == 2 else "raised-under-ignore"
+                            except Exception as e:  # noqa: BLE001
+                                st = "foreign:" + type(e).__name__
+                            acc.evaluations += 1
+                            acc.transitions += 1
+                            acc.outcomes[("socket", q, st.split(":")[0])] += 1
+                            if st not in ("end", "proto-error"):
+                                acc.violation(f"socket_stream_{st.replace(':', '|')}|end={end}|q={q}", {"kind": "socket", "data": data[:k].hex(), "chunk": chunk, "bufsize": bufsize, "end": end, "q": q}, f"cut={k} chunk={chunk} bufsize={bufsize}")
     elif kind == "D":  # per class/ID stream: its frame at every length 0..nominal+16
         ents = C.entries()
         cid = bytes.fromhex(block[1])
@@ -280,6 +327,7 @@ def run_tier(tier, t0):
     alphabet = streams.FRAME_TOKENS + streams.NOISE_TOKENS + streams.FRAG_TOKENS
     blocks += [("T", f, k) for f in alphabet]
     blocks += [("D", cid.hex(), q) for cid in FS.known_clsids()]
+    blocks += [("K", f) for f in ("Uack", "Uinf", "N1", "R1", "Ubad", "Rz", "fb562", "fd300")]
     acc = engine.sweep(blocks, eval_block)
     engine.finish(
         PROP, tier, acc, t0, replay_case,
@@ -292,7 +340,7 @@ def run_tier(tier, t0):
         ),
         assumptions=[
             f"a single call running longer than {WATCHDOG_S}s is a hang (slowest legitimate case measured: ~4 s)",
-            "stream livelock = more than 4*len+16 stream calls (deterministic horizon)",
+            "stream livelock = more than 4*len+16 stream calls (deterministic horizon); socket streams (fixed chunks, every cut, close/timeout): more than 64 recv calls after the end",
         ],
         vacuity=[
             ("parse verdicts ok and ubx-error both occurred", any(k[0] == "parse" and k[2] == "ok" for k in acc.outcomes) and any(k[2] == "ubx-error" for k in acc.outcomes)),
